@@ -82,6 +82,43 @@ CHECKS = {
             "15k (quick) / 256k (thorough) short histories, each executed twice; no phantoms/duplicates, every address-less log completed before the collect request returned, real-time and per-sender order, per address exactly one possible-last message kept. Evidence reports distinct output orders and stamp interleavings observed. Held on those histories; no finite run covers all interleavings.",
             "schedules sampled by the OS (and Miri's seeded scheduler in thorough); a hang is reported after 30 s",
             "DESIGN.md §3 C25"),
+
+    "C08": ("vmon-refmodel",
+            "reference-model monitor: get_program_cfg on generated raw and basic-normalised multi-function programs compared, as multisets of canonical node/edge labels, with a specification of the graph written from the module documentation",
+            "Hundreds of thousands of generated programs per quick tier (shared blocks, cond/indirect jumps with hints, internal/extern/indirect calls, non-returning calls, empty functions); node and edge multisets and entry-node map must be equal. Raw programs whose call return-site attribution is not documented are inconclusive.",
+            "specification derived from graph.rs documentation; at most two jumps per block (builder domain)",
+            "DESIGN.md §3 C08"),
+    "C09": ("vmon-refmodel",
+            "invariant monitor: normalize_basic run on generated raw programs with injected irregularities; invariants (unique tids, entry blocks kept, all targets exist and are intraprocedural, sink retargeting of non-returning calls) checked on the result, then the CFG build is checked with C08's oracle",
+            "Generated extractor-shaped programs with dangling targets, shared blocks, duplicated def/jmp/block tids, no_return callees, empty subs; every invariant of the statement is evaluated on every result. Results outside the CFG builder's documented domain (lone CBranch after duplicate removal) skip only the graph comparison.",
+            "entry-block and sub tids are never duplicated (guard); 'returns' decided syntactically on the normalised program",
+            "DESIGN.md §3 C09"),
+
+    "C11": ("vmon-diffexec",
+            "differential execution: random P-Code blocks executed by an independent byte-level P-Code interpreter (pcx, register file with aliasing sub-register windows) and, after lifting, by the IR interpreter irx from identical initial states; final base registers, load multisets, store sequences and jump outcomes compared; static scan for surviving sub-registers",
+            "A deterministic sweep over every output x input operand / sub-register x cast x target / jump x operand combination plus random blocks, 8 (quick) / 64 (thorough) states each. Held = identical observable behaviour on all executions in the evidence.",
+            "pcx/pref/irx as reading of the P-Code and IR semantics; only well-sized P-Code; no float ops; RAM operands not as LOAD output / CBRANCH condition / RETURN target",
+            "DESIGN.md §3 C11"),
+    "C12": ("vmon-refmodel",
+            "invariant monitor: size-consistency walk (typing.rs, independent of Expression::bytesize) over generated P-Code programs lifted through the CLI's JSON path and over IR programs, after lifting, after every single optimisation pass, every pipeline step and the whole pipeline",
+            "Generated P-Code programs (1-3 subs, 2-10 blocks, sub-registers, same-name varnodes, extern symbols) and c10's IR programs; any size inconsistency that is not already present in the stage's input is a violation. Held on the programs counted in the evidence.",
+            "typing rules stricter than the statement (1-byte bool operands/conditions, zero sizes) are counted separately as beyond-statement, not as violations",
+            "DESIGN.md §3 C12"),
+    "C13": ("vmon-diffexec",
+            "runtime monitor of an abstract interpretation: the real pointer inference (full pipeline) on generated loop-and-branch functions, then concrete executions by irx from 64-1024 boundary-biased states; at every reached block start and executed def the concrete register/stack/load/store values must be in gamma of the analysis state; unreachable-for-the-analysis blocks must not be reached",
+            "Thousands of generated functions per quick run, 64 (quick) / 1024 (thorough) runs each. Held = every concrete value observed was represented. One recorded known finding (conditions over values relative to different identifiers) printed as KNOWN-FINDING. Non-stabilising fixpoints and unconcretisable identifiers are inconclusive.",
+            "gamma reads identifiers as entry values / entry memory; memory only through stack-relative constant offsets; accesses to (-1024,1024) abort a run",
+            "DESIGN.md §3 C13"),
+    "C14": ("vmon-refmodel",
+            "reference-model monitor: compute_function_signatures on generated multi-function programs compared with an independent upward-exposed-use dataflow (under-approximating must-report set); misses classified by structural cause",
+            "Tens of thousands of generated programs per quick run; must-report subset-of reported register parameters. Three recorded known findings (reads at calls without return site, reads on non-returning callee paths, their combination) are printed as KNOWN-FINDING; any other miss, panic or hang (60 s watchdog) is a violation.",
+            "paths are CFG paths of the normalised program; bare stack spills, Return expressions and indirect jumps without targets are never demanded",
+            "DESIGN.md §3 C14"),
+    "C18": ("vmon-diffexec",
+            "differential monitor: real CWE560/CWE467 modules (full pipeline) on generated call blocks whose arguments are computed from constants; the actual argument value is obtained by executing the block with irx (three readings must agree) and the oracle is the stated threshold predicate per call site",
+            "x86-64 register/sub-register/stack parameters and a hand-built x86-32 cdecl project; values clustered at 0o177, 0o777 and the pointer size. Held = warning iff predicate, per call site, no spurious or duplicate warnings, on the sites counted in the evidence.",
+            "every parameter is computed inside the call block from constants alone; stores only at constant stack offsets",
+            "DESIGN.md §3 C18"),
 }
 
 NOT_YET = "monitor designed (DESIGN.md §3) but not built yet in this revision of /verif"
